@@ -42,6 +42,10 @@ def gen_streams(rng, n):
     for j in range(15):
         out.append(("ns-bit%d-at0" % j, apci.STARTDT_ACT + apci.i_frame(1 << j, 0, pl(2)) + apci.i_frame(0, 0, pl(3))))
         out.append(("ns-bit%d-at1" % j, apci.STARTDT_ACT + apci.i_frame(0, 0, pl(2)) + apci.i_frame(1 ^ (1 << j), 0, pl(3)) + apci.i_frame(1, 0, pl(1))))
+    # the receive counter belongs to the TCP connection, not to a period of started data transfer
+    out.append(("cycle-continue", apci.STARTDT_ACT + apci.i_frame(0, 0, pl(2)) + apci.i_frame(1, 0, pl(3)) + apci.STOPDT_ACT + apci.STARTDT_ACT + apci.i_frame(2, 0, pl(4)) + apci.i_frame(3, 0, pl(1))))
+    out.append(("cycle-restart", apci.STARTDT_ACT + apci.i_frame(0, 0, pl(2)) + apci.i_frame(1, 0, pl(3)) + apci.STOPDT_ACT + apci.STARTDT_ACT + apci.i_frame(0, 0, pl(4))))
+    out.append(("cycle-twice", apci.STARTDT_ACT + apci.i_frame(0, 0, pl(2)) + apci.STOPDT_ACT + apci.STARTDT_ACT + apci.i_frame(1, 0, pl(3)) + apci.STOPDT_ACT + apci.STARTDT_ACT + apci.i_frame(2, 0, pl(3))))
     out.append(("len1", bytes([0x68, 0x01, 0x07]) + apci.STARTDT_ACT))
     out.append(("maxlen", apci.STARTDT_ACT + apci.i_frame(0, 0, apci.asdu(200, 3, 1, bytes(243)))))
     out.append(("len255", apci.STARTDT_ACT + bytes([0x68, 0xff, 0x00, 0x00, 0x00, 0x00]) + apci.asdu(200, 3, 1, bytes(245))))
